@@ -654,8 +654,21 @@ pub fn inputs_c16(r: &mut Rng, n: usize, _tier: &str, out: &mut dyn Write) {
         match r.below(10) {
             0 | 1 | 2 => writeln!(out, "weekday {}", es).unwrap(),
             3 | 4 => writeln!(out, "weekday_utc {}", es).unwrap(),
-            5 => writeln!(out, "next {} {}", es, wd(r)).unwrap(),
-            6 => writeln!(out, "prev {} {}", es, wd(r)).unwrap(),
+            5 | 6 => {
+                // all nine scales; half of the cases in the first / last 40 s of a day of the scale's own calendar
+                const ALL9: [&str; 9] = ["TAI", "TT", "UTC", "GPST", "GST", "BDT", "QZSST", "ET", "TDB"];
+                let ts9 = *r.pick(&ALL9);
+                let e9 = if r.chance(1, 2) {
+                    let d = r.range_i64(-693_960, 2_958_463) as i128;
+                    let half = if ts9 == "ET" || ts9 == "TDB" { DAY / 2 } else { 0 };
+                    d * DAY + half + r.range_i64(-40, 40) as i128 * SEC + r.below(SEC as u64) as i128 - (ref_off(ts9) / DAY) * DAY
+                } else if ts9 == "ET" || ts9 == "TDB" {
+                    (r.range_i64(-3_600_000, 3_600_000) as i128) * DAY + r.below(DAY as u64) as i128
+                } else {
+                    e - ref_off(ts) + ref_off(ts9)
+                };
+                writeln!(out, "{} {}:{} {}", if r.chance(1, 2) { "next" } else { "prev" }, dstr(e9.clamp(DMIN, DMAX)), ts9, wd(r)).unwrap()
+            }
             7 => {
                 // all nine scales (ET/TDB count from noon); every other case in the last / first 40 s of a day of the
                 // scale's own calendar, where the TAI date and the own date differ
